@@ -502,3 +502,16 @@ func ownedBytes(what string, first []byte, again func() []byte) (v *Violation) {
 	}
 	return nil
 }
+
+// genWrapInt returns base displaced by a non-zero multiple of 2^16 or 2^32: an int argument that looks like the
+// ordinary value base once it has been narrowed to int16 or int32 (a conversion placed ahead of a range test).
+func genWrapInt(t *rapid.T, base int) int {
+	m := ir(t, 1, 3, "wrapMul")
+	if rapid.Bool().Draw(t, "wrapNeg") {
+		m = -m
+	}
+	if rapid.Bool().Draw(t, "wrap32") {
+		return base + m<<32
+	}
+	return base + m<<16
+}
